@@ -28,10 +28,15 @@ import (
 func init() { register("C02", &Check{Run: runC02, Replay: replayC02}) }
 
 type c02Case struct {
-	Kind  string            `json:"kind"` // program | eval
+	Kind  string            `json:"kind"` // program | eval | history | reload
 	Files map[string]string `json:"files,omitempty"`
 	Main  string            `json:"main_dir,omitempty"`
 	Src   string            `json:"src,omitempty"`
+	// history: Eval inputs given to one VM one after the other; reload: successive versions of one
+	// program, each loaded into the same VM and run
+	Tag      string              `json:"family,omitempty"`
+	Steps    []string            `json:"steps,omitempty"`
+	Versions []map[string]string `json:"versions,omitempty"`
 }
 
 var fusedOps = []string{"LOCALINCDEC", "LOCALADD", "LOCALSUB", "LOCALMUL", "LOCALDIV", "FASTGET", "FASTSET", "FASTGETINT", "FASTSETINT", "FASTCALL", "FASTCALLATTR", "FASTGETATTR", "FASTSETATTR", "INCDEC", "PASS"}
@@ -108,7 +113,24 @@ func (c c02Case) run(optimize bool) (core.Outcome, map[string]int) {
 	m := core.NewMachine(core.VMOpts{Optimize: optimize, Obs: obs})
 	var o core.Outcome
 	hist := map[string]int{}
-	if c.Kind == "program" {
+	merge := func(steps int, next func(i int) core.Outcome) {
+		for i := 0; i < steps; i++ {
+			so := next(i)
+			core.MergeHist(hist, obs.HistMap())
+			o.Out, o.Steps = so.Out, o.Steps+so.Steps
+			o.Rets = append(append(o.Rets, fmt.Sprintf("step %d:", i)), so.Rets...)
+			o.Types = append(append(o.Types, "-"), so.Types...)
+			o.Panic, o.Budget, o.Err = so.Panic, so.Budget, so.Err
+			if so.Failed() || so.Budget {
+				break
+			}
+		}
+	}
+	if c.Kind == "history" {
+		merge(len(c.Steps), func(i int) core.Outcome { return m.Eval(core.MapFS(c.Files), c.Steps[i]) })
+	} else if c.Kind == "reload" {
+		merge(len(c.Versions), func(i int) core.Outcome { return m.LoadMain(core.MapFS(c.Versions[i]), c.Main) })
+	} else if c.Kind == "program" {
 		o = m.LoadMain(core.MapFS(c.Files), c.Main)
 		core.MergeHist(hist, obs.HistMap())
 	} else {
@@ -140,7 +162,10 @@ func c02Decide(r *core.Run, idx int, c c02Case, total map[string]int, sample boo
 		fused += hist[f]
 	}
 	if off.Steps > 0 && fused > 0 {
-		key := c.Src
+		key := c.Src + strings.Join(c.Steps, "\x00")
+		for _, v := range c.Versions {
+			key += v[c.Main+"/main.go"] + "\x00"
+		}
 		if c.Kind == "program" {
 			var ks []string
 			for k := range c.Files {
@@ -156,6 +181,12 @@ func c02Decide(r *core.Run, idx int, c c02Case, total map[string]int, sample boo
 	r.MergeCounts("executed:", hist, fusedOps)
 	if off.Err != "" {
 		r.Count("cases_failing_identically_in_both_modes", 1)
+		if c.Tag != "" {
+			r.Count("failing_identically:"+c.Tag, 1)
+			if os.Getenv("VERIF_DEBUG") != "" {
+				fmt.Fprintf(os.Stderr, "%s fails in both modes: %s\n%s\n", c.Tag, off.Err, c.Src+strings.Join(c.Steps, "\n--\n"))
+			}
+		}
 	}
 	if sample {
 		src := c.Src
@@ -271,7 +302,7 @@ var c02Snippets = []string{
 }
 
 func runC02(r *core.Run) {
-	r.SetRule("each case runs twice on fresh VMs, optimizer off (reference) and on: generated programs of every profile (Load + Call main.main), operator/literal mutations of them, hand-written locals-heavy snippets and every string literal of /repo/*_test.go (harvested at run time) as Eval input. non-trivial = executed at least one instruction and at least one fused opcode in the optimized run; distinct by source text")
+	r.SetRule("each case runs twice on fresh VMs, optimizer off (reference) and on: generated programs of every profile (Load + Call main.main), operator/literal mutations of them, hand-written locals-heavy snippets, a table of x OP literal / literal OP x / x OP= literal functions per numeric type over boundary operands (the identities a strength reduction would use), stores of untyped constants into typed elements through every storage form, histories in which one VM compiles twice (a later Eval or a second Load that declares a constant, function or type again) and every string literal of /repo/*_test.go (harvested at run time) as Eval input. non-trivial = executed at least one instruction and at least one fused opcode in the optimized run; distinct by source text")
 	r.Assume("the unoptimized compilation (one instruction per tree node) is the reference semantics; differences the two modes share are C01's business")
 	perProfile := r.N(60, 1500)
 	nm := 1 // mutants per program
@@ -304,6 +335,19 @@ func runC02(r *core.Run) {
 	for _, s := range c02Snippets {
 		cases = append(cases, c02Case{Kind: "eval", Src: s})
 	}
+	alg := c02AlgebraSnippets()
+	for _, s := range alg {
+		cases = append(cases, c02Case{Kind: "eval", Src: s, Tag: "operator_x_literal"})
+	}
+	r.Count("operator_x_literal_snippets", len(alg))
+	st := c02StoreSnippets()
+	for _, s := range st {
+		cases = append(cases, c02Case{Kind: "eval", Src: s, Tag: "constant_store"})
+	}
+	r.Count("constant_store_snippets", len(st))
+	hs := c02Histories()
+	cases = append(cases, hs...)
+	r.Count("histories_on_one_vm", len(hs))
 	harvested := harvestTestStrings()
 	for _, s := range harvested {
 		cases = append(cases, c02Case{Kind: "eval", Src: s})
